@@ -22,6 +22,13 @@ R11d  def-use chain of the encoding: ``get_encoding`` value used by the
       ``lint_rendered`` -> ``lint_parsed(encoding=)`` -> ``LintedFile.encoding``
       -> persisting method passes ``self.encoding`` -> writer ``encoding=``;
       the runner only ever lints what ``render_file`` produced.
+
+Spellings seen through (decided on ``origins()`` leaves, never on names of locals): a value read
+through a local; a pair/triple unpacked or kept whole and read by constant index (``r = f();
+r[1]``); a returned tuple / constructed ``RenderedFile`` / yielded value built in a local first;
+the change flag or the normaliser's pattern and result held in a local; ``!=`` as ``not ==`` with
+either operand order; ``self.templated_file`` / ``self.templater`` read through a local alias;
+positional or keyword arguments (including ``open(file=...)``); ``read()`` / ``read(-1)``.
 """
 
 from __future__ import annotations
@@ -53,11 +60,77 @@ def _ctor_arg(call: ast.Call, fields: List[str], name: str) -> Optional[ast.expr
     return None
 
 
-def _leaves(cfg, e, at):
-    """Origin leaves as (expr, path, stmt, kind) for any expression."""
+def _leaves(cfg, e, at, _depth=0):
+    """Origin leaves as (expr, path, stmt, kind) for any expression.
+
+    Plain locals are expanded through reaching definitions.  A constant, non-negative subscript of
+    a local that holds a value whole is the same selection as unpacking it: ``r = f(); r[1]`` and
+    ``_, x = f(); x`` both give ``(f(), (1,))``."""
     if isinstance(e, ast.Name):
-        return [(o.expr, o.path, o.stmt, o.kind) for o in origins(cfg, e, at)]
+        out = []
+        for o in origins(cfg, e, at):
+            if o.kind == "expr" and isinstance(o.expr, ast.Subscript) and _depth < 6:
+                out += [(x, p + o.path, s, k) for x, p, s, k in _leaves(cfg, o.expr, o.stmt, _depth + 1)]
+            else:
+                out.append((o.expr, o.path, o.stmt, o.kind))
+        return out
+    if (
+        isinstance(e, ast.Subscript) and isinstance(e.value, ast.Name) and isinstance(e.slice, ast.Constant)
+        and isinstance(e.slice.value, int) and not isinstance(e.slice.value, bool) and e.slice.value >= 0 and _depth < 6
+    ):
+        idx, out = e.slice.value, []
+        for x, p, s, k in _leaves(cfg, e.value, at, _depth + 1):
+            if k != "expr":
+                return [(e, (), at, "expr")]
+            if isinstance(x, (ast.Tuple, ast.List)) and not p and idx < len(x.elts) and not any(isinstance(y, ast.Starred) for y in x.elts):
+                out += _leaves(cfg, x.elts[idx], s, _depth + 1)
+            else:
+                out.append((x, p + (idx,), s, k))
+        return out
     return [(e, (), at, "expr")]
+
+
+def _sole(cfg, e, at):
+    """(expression, statement) a value is read from: a local stands for its single defining
+    expression; (None, None) when it has several origins or is not a whole expression."""
+    if e is None:
+        return None, None
+    lv = _leaves(cfg, e, at)
+    if len(lv) == 1 and lv[0][3] == "expr" and not lv[0][1]:
+        return lv[0][0], lv[0][2]
+    return None, None
+
+
+def _const_of(cfg, e, at):
+    """Constant value of an expression, read through a local if need be (None when it is none)."""
+    x, _ = _sole(cfg, e, at)
+    return const(x) if x is not None else None
+
+
+def _tuple_of(cfg, e, at):
+    """(tuple display, statement) when ``e`` is one or a local holding exactly one."""
+    x, st = _sole(cfg, e, at)
+    return (x, st) if isinstance(x, ast.Tuple) else (None, None)
+
+
+def _self_chain(cfg, e, at):
+    """('templated_file', 'source_str') for ``self.templated_file.source_str`` -- also when a prefix
+    of the chain sits in a local (``t = self.templated_file; t.source_str``); None otherwise."""
+    tail = []
+    for _ in range(8):
+        while isinstance(e, ast.Attribute):
+            tail.append(e.attr)
+            e = e.value
+        if not isinstance(e, ast.Name):
+            return None
+        os_ = origins(cfg, e, at)
+        if len(os_) == 1 and os_[0].kind == "expr" and not os_[0].path and isinstance(os_[0].expr, ast.Attribute):
+            e, at = os_[0].expr, os_[0].stmt
+            continue
+        if e.id == "self" and os_ and all(o.kind == "param" for o in os_):
+            return tuple(reversed(tail))
+        return None
+    return None
 
 
 def run(chk) -> None:
@@ -90,7 +163,7 @@ def _r11e(chk, repo) -> None:
             continue
         for it in w.items:
             c = it.context_expr
-            if not (isinstance(c, ast.Call) and fq(c) == "open" and c.args and param_of(cfg, c.args[0], w) is not None and isinstance(it.optional_vars, ast.Name)):
+            if not (isinstance(c, ast.Call) and fq(c) == "open" and param_of(cfg, arg_of(c, 0, "file"), w) is not None and isinstance(it.optional_vars, ast.Name)):
                 continue
             handle = it.optional_vars.id
             for r in calls_in(w):
@@ -98,7 +171,7 @@ def _r11e(chk, repo) -> None:
                     continue
                 n += 1
                 size = r.args[0] if r.args else kwarg(r, "size")
-                unbounded = r.func.attr == "read" and (size is None or (isinstance(size, ast.Constant) and size.value in (None, -1)))
+                unbounded = r.func.attr == "read" and (size is None or (isinstance(size, ast.Constant) and size.value in (None, -1)) or _is_minus_one(size))
                 in_loop = any(isinstance(p, (ast.While, ast.For)) for p in _ancestors_until(r, G))
                 chk.require(
                     unbounded or in_loop, "R11e", r,
@@ -108,6 +181,11 @@ def _r11e(chk, repo) -> None:
                 )
     chk.count("R11e.detector_reads", n)
     chk.floor("R11e.detector_reads", 1)
+
+
+def _is_minus_one(e) -> bool:
+    """``-1`` is parsed as a unary minus applied to the constant 1."""
+    return isinstance(e, ast.UnaryOp) and isinstance(e.op, ast.USub) and isinstance(e.operand, ast.Constant) and e.operand.value == 1
 
 
 def _ancestors_until(node, stop):
@@ -128,13 +206,14 @@ def _reader_opens(L):
         if isinstance(n, ast.With):
             for it in n.items:
                 c = it.context_expr
-                if isinstance(c, ast.Call) and fq(c) == "open" and c.args and param_of(cfg, c.args[0], n) is not None:
+                if isinstance(c, ast.Call) and fq(c) == "open" and param_of(cfg, arg_of(c, 0, "file"), n) is not None:
                     out.append((n, c, it.optional_vars.id if isinstance(it.optional_vars, ast.Name) else None))
     # which of them is returned as component 0?
     flowing = []
     for r in returns_of(L):
-        if isinstance(r.value, ast.Tuple) and r.value.elts:
-            for e, p, at, k in _leaves(cfg, r.value.elts[0], r):
+        tup, tst = _tuple_of(cfg, r.value, r)
+        if tup is not None and tup.elts:
+            for e, p, at, k in _leaves(cfg, tup.elts[0], tst):
                 if isinstance(e, ast.Call) and last_attr(e) == "read" and isinstance(e.func, ast.Attribute) and isinstance(e.func.value, ast.Name):
                     for o in origins(cfg, e.func.value, at):
                         for wst, c, var in out:
@@ -196,10 +275,10 @@ def _r11b(chk, repo, W) -> None:
         st = cfg.stmt_of(call)
         flag_call = None
         for e, pol in cfg.conditions(st):
-            if pol and isinstance(e, ast.Name):
-                os_ = origins(cfg, e, st)
-                if os_ and all(isinstance(o.expr, ast.Call) and o.path == (1,) and isinstance(o.expr.func, ast.Attribute) and is_self_attr(o.expr.func, o.expr.func.attr) for o in os_):
-                    calls = {id(o.expr): o.expr for o in os_}
+            if pol and isinstance(e, (ast.Name, ast.Subscript)):
+                os_ = _leaves(cfg, e, cfg.stmt_of(e))
+                if os_ and all(k == "expr" and isinstance(x, ast.Call) and pth == (1,) and isinstance(x.func, ast.Attribute) and is_self_attr(x.func, x.func.attr) for x, pth, at, k in os_):
+                    calls = {id(x): x for x, pth, at, k in os_}
                     if len(calls) == 1:
                         flag_call = next(iter(calls.values()))
         if not chk.require(flag_call is not None, "R11b", call, "the file is rewritten although nothing may have changed: the call is not dominated by the truth of the change flag returned by fix_string()",
@@ -218,33 +297,45 @@ def _r11b(chk, repo, W) -> None:
         for r in rets:
             ok = False
             why = "return value is not a (text, flag) pair"
-            v = r.value
-            if isinstance(v, ast.Tuple) and len(v.elts) == 2:
+            v, vat = _tuple_of(cfg, r.value, r)
+            if v is not None and len(v.elts) == 2:
                 text, flag = v.elts
                 why = "flag is not `fixed != original source`"
                 neg = False
-                if isinstance(flag, ast.UnaryOp) and isinstance(flag.op, ast.Not):
-                    flag, neg = flag.operand, True
+                fat = vat  # statement the flag expression is evaluated at (it may sit in a boolean local)
+                for _ in range(4):
+                    if isinstance(flag, ast.Name):
+                        x, xat = _sole(cfg, flag, fat)
+                        if x is None or x is flag:
+                            break
+                        flag, fat = x, xat
+                    elif isinstance(flag, ast.UnaryOp) and isinstance(flag.op, ast.Not):
+                        flag, neg = flag.operand, not neg
+                    else:
+                        break
                 if isinstance(flag, ast.Compare) and len(flag.ops) == 1 and (
                     (isinstance(flag.ops[0], ast.NotEq) and not neg) or (isinstance(flag.ops[0], ast.Eq) and neg)
                 ):
                     sides = [flag.left, flag.comparators[0]]
-                    t_l = {(id(e), p) for e, p, at, k in _leaves(cfg, text, r)}
-                    is_text = [{(id(e), p) for e, p, at, k in _leaves(cfg, s, r)} == t_l or norm(s) == norm(text) for s in sides]
-                    is_src = [all(isinstance(e, ast.Attribute) and e.attr == "source_str" and norm(e) == "self.templated_file.source_str" and not p for e, p, at, k in _leaves(cfg, s, r)) for s in sides]
+                    t_l = {(id(e), p) for e, p, at, k in _leaves(cfg, text, vat)}
+                    is_text = [{(id(e), p) for e, p, at, k in _leaves(cfg, s, fat)} == t_l for s in sides]
+                    is_src = [all(k == "expr" and not p and _self_chain(cfg, e, at) == ("templated_file", "source_str") for e, p, at, k in _leaves(cfg, s, fat)) for s in sides]
                     ok = (is_text[0] and is_src[1]) or (is_text[1] and is_src[0])
             chk.require(ok, "R11b", r, f"fix_string(): {why}; an unchanged file would be rewritten (or a changed one not)", detail="flag = fixed != templated_file.source_str")
         # untouched slices are copied from the very string the result is compared with
         n = 0
         for c in calls_in(fs):
-            if isinstance(c.func, ast.Attribute) and is_self_attr(c.func, c.func.attr) and len(c.args) == 3:
+            if isinstance(c.func, ast.Attribute) and is_self_attr(c.func, c.func.attr):
                 m = W.repo.lookup_method(W.mod, W.cls, c.func.attr)
                 if not m:
                     continue
                 ps = [a.arg for a in m[1].args.args]
                 if ps and ps[-1] == "raw_source_string":
                     n += 1
-                    src_ok = all(isinstance(e, ast.Attribute) and norm(e) == "self.templated_file.source_str" for e, p, at, k in _leaves(cfg, c.args[2], cfg.stmt_of(c)))
+                    a_src = map_args(c, m[1]).get("raw_source_string")
+                    src_ok = a_src is not None and all(
+                        k == "expr" and not p and _self_chain(cfg, e, at) == ("templated_file", "source_str") for e, p, at, k in _leaves(cfg, a_src, cfg.stmt_of(c))
+                    )
                     chk.require(src_ok, "R11b", c, "the raw string untouched slices are copied from is not templated_file.source_str", detail=f"{c.func.attr}: raw source is source_str")
         chk.count("R11b.raw_source_consumers", n)
     if fix_fns:
@@ -259,9 +350,12 @@ def _normalisers(repo):
     out = []
     for q, f in repo.mod(LINTER).functions():
         rets = [r for r in returns_of(f) if r.value is not None]
-        if len(rets) == 1 and isinstance(rets[0].value, ast.Call) and fq(rets[0].value) in ("regex.sub", "re.sub") and len(rets[0].value.args) >= 3:
-            c = rets[0].value
-            if const(c.args[1]) == "\n":
+        if len(rets) != 1:
+            continue
+        cfg = cfg_of(f)
+        c, _ = _sole(cfg, rets[0].value, rets[0])
+        if isinstance(c, ast.Call) and fq(c) in ("regex.sub", "re.sub") and len(c.args) >= 3:
+            if _const_of(cfg, c.args[1], cfg.stmt_of(c)) == "\n":
                 out.append((f, c))
     return out
 
@@ -273,8 +367,8 @@ def _r11c(chk, repo, W, L) -> None:
     names = set()
     for f, c in norms:
         names.add(f.name)
-        pat = const(c.args[0])
         pcfg = cfg_of(f)
+        pat = _const_of(pcfg, c.args[0], pcfg.stmt_of(c))
         chk.require(pat in NEWLINE_PATTERNS and param_of(pcfg, c.args[2], pcfg.stmt_of(c)) is not None, "R11c", c,
                     f"newline normaliser pattern {pat!r} does not map both CRLF and lone CR to LF", detail="normaliser maps CRLF and CR to LF")
     # templater entry calls in linter.py
@@ -282,11 +376,11 @@ def _r11c(chk, repo, W, L) -> None:
     rfields = _fields(rcls)
     n_t = 0
     for q, g in repo.mod(LINTER).functions():
-        cfg = None
-        tcalls = [c for c in calls_in(g) if last_attr(c) in ("process", "process_with_variants") and isinstance(c.func, ast.Attribute) and is_self_attr(c.func.value, "templater")]
+        tcalls = [c for c in calls_in(g) if last_attr(c) in ("process", "process_with_variants") and isinstance(c.func, ast.Attribute)]
         if not tcalls:
             continue
         cfg = cfg_of(g)
+        tcalls = [c for c in tcalls if _self_chain(cfg, c.func.value, cfg.stmt_of(c)) == ("templater",)]
         for c in tcalls:
             n_t += 1
             st = cfg.stmt_of(c)
@@ -298,11 +392,12 @@ def _r11c(chk, repo, W, L) -> None:
                         detail="templater input is normalised once")
             # the source string recorded for the file is the same normalised string
             for r in returns_of(g):
-                if isinstance(r.value, ast.Call) and last_attr(r.value) == rcls.name:
-                    s = _ctor_arg(r.value, rfields, "source_str")
-                    slv = _leaves(cfg, s, r) if s is not None else []
+                rv, rat = _sole(cfg, r.value, r)
+                if isinstance(rv, ast.Call) and last_attr(rv) == rcls.name:
+                    s = _ctor_arg(rv, rfields, "source_str")
+                    slv = _leaves(cfg, s, rat) if s is not None else []
                     same = bool(slv) and {id(e) for e, p, at, k in slv} == {id(e) for e in ncalls}
-                    chk.require(same, "R11c", r.value, "RenderedFile.source_str is not the normalised string that was templated", detail="source_str is the templated input")
+                    chk.require(same, "R11c", rv, "RenderedFile.source_str is not the normalised string that was templated", detail="source_str is the templated input")
     chk.count("R11c.templater_entry_calls", n_t)
     chk.floor("R11c.templater_entry_calls", 1)
     # reader: universal newlines (default) or no translation; writer: no translation
@@ -326,12 +421,12 @@ def _r11d(chk, repo, W, L) -> None:
     hops = 0
     # 1. loader: returned encoding is the one used by the reader
     cfgL = cfg_of(L)
-    rets = [r for r in returns_of(L) if isinstance(r.value, ast.Tuple) and len(r.value.elts) == 3]
+    rets = [(t, st) for t, st in (_tuple_of(cfgL, r.value, r) for r in returns_of(L)) if t is not None and len(t.elts) == 3]
     chk.count("R11d.loader_returns", len(rets))
     chk.floor("R11d.loader_returns", 1)
     ret_src = set()
-    for r in rets:
-        for e, p, at, k in _leaves(cfgL, r.value.elts[2], r):
+    for t, st in rets:
+        for e, p, at, k in _leaves(cfgL, t.elts[2], st):
             ret_src.add((id(e), p))
     for wst, c, var in _reader_opens(L):
         enc = kwarg(c, "encoding")
@@ -406,9 +501,11 @@ def _r11d(chk, repo, W, L) -> None:
             if last_attr(c) in lf_makers and isinstance(c.func, ast.Attribute):
                 mk, p = lf_makers[last_attr(c)]
                 a = map_args(c, mk).get(p)
-                ok = False
-                if isinstance(a, ast.Attribute) and a.attr == "encoding" and isinstance(a.value, ast.Name):
-                    ok = param_of(cfg, a.value, cfg.stmt_of(c)) in [x.arg for x in ps]
+                lv = _leaves(cfg, a, cfg.stmt_of(c)) if a is not None else []
+                ok = bool(lv) and all(
+                    k == "expr" and not p and isinstance(e, ast.Attribute) and e.attr == "encoding" and isinstance(e.value, ast.Name) and param_of(cfg, e.value, at) in [x.arg for x in ps]
+                    for e, p, at, k in lv
+                )
                 chk.require(ok, "R11d", c, "the encoding of the rendered file is not forwarded to the LintedFile (a default such as utf8 would be used to write the file back)",
                             detail=f"{g.name}: encoding=<rendered>.encoding")
                 lint_rendered_names.add(g.name)
@@ -461,6 +558,8 @@ def _is_render_result(repo, rm, g, cfg, e, p, at, kind, render_file_names) -> bo
     if isinstance(e, ast.Call) and last_attr(e) in render_file_names and not p:
         return True
     # for fname, rendered in self.iter_xxx(...): follow into the generator's yields
+    if kind == "for" and isinstance(e, ast.Name):
+        e = _sole(cfg, e, at)[0]  # the iterable held in a local
     if kind == "for" and isinstance(e, ast.Call) and isinstance(e.func, ast.Attribute) and isinstance(e.func.value, ast.Name) and e.func.value.id == "self" and len(p) == 1:
         cls = enclosing_class(g)
         m = repo.lookup_method(rm, cls, e.func.attr) if cls is not None else None
@@ -470,12 +569,13 @@ def _is_render_result(repo, rm, g, cfg, e, p, at, kind, render_file_names) -> bo
         ys = [n for n in walk_local(gen) if isinstance(n, ast.Yield)]
         if not ys or any(isinstance(n, ast.YieldFrom) for n in walk_local(gen)):
             return False
+        gcfg = cfg_of(gen)
         for y in ys:
-            v = y.value
-            if not (isinstance(v, ast.Tuple) and isinstance(p[0], int) and p[0] < len(v.elts)):
+            v, vat = _tuple_of(gcfg, y.value, gcfg.stmt_of(y)) if y.value is not None else (None, None)
+            if not (v is not None and isinstance(p[0], int) and p[0] < len(v.elts)):
                 return False
-            x = v.elts[p[0]]
-            if not (isinstance(x, ast.Call) and last_attr(x) in render_file_names):
+            lv = _leaves(gcfg, v.elts[p[0]], vat)
+            if not lv or not all(k2 == "expr" and not p2 and isinstance(x, ast.Call) and last_attr(x) in render_file_names for x, p2, at2, k2 in lv):
                 return False
         return True
     return False
@@ -484,17 +584,191 @@ def _is_render_result(repo, rm, g, cfg, e, p, at, kind, render_file_names) -> bo
 from ..selftest import Variant  # noqa: E402
 
 VARIANTS = [
-    Variant(
-        "autodetect-sniffs-head-only", "src/sqlfluff/core/helpers/file.py",
-        "        data = f.read()\n",
-        "        data = f.read(8192)\n",
-        "R11e", "get_encoding", "seeded C11-2: ASCII head, UTF-8 tail -> tail rewritten as backslash escapes",
-    ),
+    # behaviour-preserving refactors: must stay quiet
     Variant(
         "quiet-autodetect-chunked-read", "src/sqlfluff/core/helpers/file.py",
         "        data = f.read()\n",
         "        data = b\"\"\n        while True:\n            chunk = f.read(65536)\n            if not chunk:\n                break\n            data += chunk\n",
         "QUIET", None, "whole file read in chunks",
+    ),
+    Variant(
+        "quiet-autodetect-open-by-keyword", "src/sqlfluff/core/helpers/file.py",
+        "    with open(fname, \"rb\") as f:\n        data = f.read()\n",
+        "    with open(file=fname, mode=\"rb\") as f:\n        data = f.read(-1)\n",
+        "QUIET", None, "R11e: open() arguments by keyword, read(-1) is the unbounded read",
+    ),
+    Variant(
+        "quiet-loader-open-by-keyword-result-in-local", LINTER,
+        "        with open(fname, encoding=encoding, errors=\"backslashreplace\") as target_file:\n"
+        "            raw_file = target_file.read()\n"
+        "        # Scan the raw file for config commands.\n"
+        "        file_config.process_raw_file_for_config(raw_file, fname)\n"
+        "        # Return the raw file and config\n"
+        "        return raw_file, file_config, encoding\n",
+        "        with open(file=fname, mode=\"r\", encoding=encoding, errors=\"backslashreplace\") as target_file:\n"
+        "            raw_file = target_file.read()\n"
+        "        # Scan the raw file for config commands.\n"
+        "        file_config.process_raw_file_for_config(raw_file, fname)\n"
+        "        # Return the raw file and config\n"
+        "        loaded = (raw_file, file_config, encoding)\n"
+        "        return loaded\n",
+        "QUIET", None, "R11a/R11c/R11d: reader opened by keyword with the default mode spelled out; the result tuple returned through a local",
+    ),
+    Variant(
+        "quiet-persist-fix-result-indexed", LINTED_FILE,
+        "            write_buff, success = self.fix_string()\n",
+        "            fix_result = self.fix_string()\n            write_buff = fix_result[0]\n            success = fix_result[1]\n",
+        "QUIET", None, "R11b: the (text, flag) pair kept whole and read by index",
+    ),
+    Variant(
+        "quiet-persist-fail-arm-first", LINTED_FILE,
+        "            if success:\n"
+        "                fname = self.path\n"
+        "                # If there is a suffix specified, then use it.s\n"
+        "                if suffix:\n"
+        "                    root, ext = os.path.splitext(fname)\n"
+        "                    fname = root + suffix + ext\n"
+        "                self._safe_create_replace_file(\n"
+        "                    self.path, fname, write_buff, self.encoding\n"
+        "                )\n"
+        "                result_label = \"FIXED\"\n"
+        "            else:  # pragma: no cover\n"
+        "                result_label = \"FAIL\"\n",
+        "            changed = success\n"
+        "            if not changed:  # pragma: no cover\n"
+        "                result_label = \"FAIL\"\n"
+        "            else:\n"
+        "                fname = self.path\n"
+        "                # If there is a suffix specified, then use it.s\n"
+        "                if suffix:\n"
+        "                    root, ext = os.path.splitext(fname)\n"
+        "                    fname = root + suffix + ext\n"
+        "                file_encoding = self.encoding\n"
+        "                self._safe_create_replace_file(\n"
+        "                    input_path=self.path, output_path=fname, write_buff=write_buff, encoding=file_encoding\n"
+        "                )\n"
+        "                result_label = \"FIXED\"\n",
+        "QUIET", None, "R11b/R11d: arms swapped under the negated flag (read through a local); keyword arguments; encoding through a local",
+    ),
+    Variant(
+        "quiet-fix-string-flag-in-local-source-alias", LINTED_FILE,
+        "        original_source = self.templated_file.source_str\n",
+        "        templated_file = self.templated_file\n        original_source = templated_file.source_str\n",
+        "QUIET", None, "R11b: self.templated_file read through a local alias before .source_str",
+    ),
+    Variant(
+        "quiet-fix-string-flag-hoisted", LINTED_FILE,
+        "        fixed_source_string = self._build_up_fixed_source_string(\n"
+        "            slice_buff, filtered_source_patches, self.templated_file.source_str\n"
+        "        )\n"
+        "\n"
+        "        # The success metric here is whether anything ACTUALLY changed.\n"
+        "        return fixed_source_string, fixed_source_string != original_source\n",
+        "        fixed_source_string = self._build_up_fixed_source_string(\n"
+        "            slice_buff, filtered_source_patches, raw_source_string=original_source\n"
+        "        )\n"
+        "\n"
+        "        # The success metric here is whether anything ACTUALLY changed.\n"
+        "        changed = original_source != fixed_source_string\n"
+        "        return fixed_source_string, changed\n",
+        "QUIET", None, "R11b: change flag hoisted into a boolean local (operands swapped); raw source passed by keyword through the existing local",
+    ),
+    Variant(
+        "quiet-normaliser-pattern-and-result-in-locals", LINTER,
+        "        return regex.sub(r\"\\r\\n|\\r\", \"\\n\", string)\n",
+        "        pattern = r\"\\r\\n|\\r\"\n        normalised = regex.sub(pattern, \"\\n\", string)\n        return normalised\n",
+        "QUIET", None, "R11c: the normaliser's pattern and result pass through locals",
+    ),
+    Variant(
+        "quiet-rendered-file-by-keyword-through-local", LINTER,
+        "        return RenderedFile(\n"
+        "            templated_variants,\n"
+        "            templater_violations,\n"
+        "            config,\n"
+        "            time_dict,\n"
+        "            fname,\n"
+        "            encoding,\n"
+        "            in_str,\n"
+        "        )\n",
+        "        rendered_file = RenderedFile(\n"
+        "            templated_variants=templated_variants,\n"
+        "            templater_violations=templater_violations,\n"
+        "            config=config,\n"
+        "            time_dict=time_dict,\n"
+        "            fname=fname,\n"
+        "            source_str=in_str,\n"
+        "            encoding=encoding,\n"
+        "        )\n"
+        "        return rendered_file\n",
+        "QUIET", None, "R11c/R11d: RenderedFile built with keywords (in another order) and returned through a local",
+    ),
+    Variant(
+        "quiet-render-file-result-indexed", LINTER,
+        "        raw_file, config, encoding = self.load_raw_file_and_config(fname, root_config)\n"
+        "        # Render the file\n"
+        "        return self.render_string(raw_file, fname, config, encoding)\n",
+        "        loaded = self.load_raw_file_and_config(fname, root_config)\n"
+        "        # Render the file\n"
+        "        return self.render_string(loaded[0], fname, loaded[1], encoding=loaded[2])\n",
+        "QUIET", None, "R11d: the loader's result kept whole and read by index",
+    ),
+    Variant(
+        "quiet-lint-rendered-encoding-in-local", LINTER,
+        "        parsed = cls.parse_rendered(rendered)\n"
+        "        return cls.lint_parsed(\n"
+        "            parsed,\n"
+        "            rule_pack=rule_pack,\n"
+        "            fix=fix,\n"
+        "            formatter=formatter,\n"
+        "            encoding=rendered.encoding,\n"
+        "        )\n",
+        "        parsed = cls.parse_rendered(rendered)\n"
+        "        file_encoding = rendered.encoding\n"
+        "        return cls.lint_parsed(\n"
+        "            parsed,\n"
+        "            rule_pack=rule_pack,\n"
+        "            fix=fix,\n"
+        "            formatter=formatter,\n"
+        "            encoding=file_encoding,\n"
+        "        )\n",
+        "QUIET", None, "R11d: rendered.encoding forwarded through a local",
+    ),
+    Variant(
+        "quiet-runner-yields-rendered-through-local", RUNNER,
+        "                yield fname, self.linter.render_file(fname, self.config)\n",
+        "                rendered_file = self.linter.render_file(fname, self.config)\n                yield fname, rendered_file\n",
+        "QUIET", None, "R11d: the generator yields the render_file result through a local",
+    ),
+    Variant(
+        "quiet-fix-string-returns-pair-through-local", LINTED_FILE,
+        "        return fixed_source_string, fixed_source_string != original_source\n",
+        "        outcome = (fixed_source_string, not (fixed_source_string == original_source))\n        return outcome\n",
+        "QUIET", None, "R11b: the (text, flag) pair built in a local; != spelled as not ==",
+    ),
+    Variant(
+        "quiet-runner-iterates-rendered-through-local", RUNNER,
+        "        for fname, rendered in self.iter_rendered(fnames):\n",
+        "        rendered_files = self.iter_rendered(fnames)\n        for fname, rendered in rendered_files:\n",
+        "QUIET", None, "R11d: the generator of rendered files held in a local before the loop",
+    ),
+    Variant(
+        "quiet-templater-through-local", LINTER,
+        "            for variant, templater_errs in self.templater.process_with_variants(\n",
+        "            templater = self.templater\n            for variant, templater_errs in templater.process_with_variants(\n",
+        "QUIET", None, "R11c: self.templater read through a local before the templater entry call",
+    ),
+    Variant(
+        "quiet-writer-writes-through-wrapper", LINTED_FILE,
+        "                tmp.file.write(write_buff)\n",
+        "                text = write_buff\n                tmp.write(text)\n",
+        "QUIET", None, "R11c: buffer through a local, written through the temp-file wrapper (delegates to .file)",
+    ),
+    # breaking edits: must be reported
+    Variant(
+        "autodetect-sniffs-head-only", "src/sqlfluff/core/helpers/file.py",
+        "        data = f.read()\n",
+        "        data = f.read(8192)\n",
+        "R11e", "get_encoding", "seeded C11-2: ASCII head, UTF-8 tail -> tail rewritten as backslash escapes",
     ),
     Variant("reader-ignores-undecodable", LINTER, 'errors="backslashreplace"', 'errors="ignore"', "R11a", "load_raw_file_and_config", "a different lossy handler (distinct finding key)"),
     Variant("writer-replaces-unencodable", LINTED_FILE, "                delete=False,\n", '                delete=False,\n                errors="replace",\n', "R11a", "_safe_create_replace_file"),
@@ -518,4 +792,64 @@ VARIANTS = [
     Variant("loader-decodes-with-config-value", LINTER, "with open(fname, encoding=encoding, errors=", "with open(fname, encoding=config_encoding, errors=", "R11d", "load_raw_file_and_config"),
     Variant("lintedfile-default-encoding", LINTER, "            encoding=encoding,\n            source_patches=merged_source_patches,\n", '            encoding="utf8",\n            source_patches=merged_source_patches,\n', "R11d", "lint_parsed"),
     Variant("renderedfile-fields-swapped", LINTER, "            fname,\n            encoding,\n            in_str,\n", "            encoding,\n            fname,\n            in_str,\n", "R11d", "render_"),
+    # breaking edits written in the refactored spellings the rules now see through
+    Variant(
+        "indexed-fix-result-flag-is-the-text", LINTED_FILE,
+        "            write_buff, success = self.fix_string()\n",
+        "            fix_result = self.fix_string()\n            write_buff = fix_result[0]\n            success = fix_result[0]\n",
+        "R11b", "persist_tree", "wrong component read as the change flag (non-empty text is always true)",
+    ),
+    Variant(
+        "hoisted-flag-compares-templated", LINTED_FILE,
+        "        return fixed_source_string, fixed_source_string != original_source\n",
+        "        changed = fixed_source_string != self.templated_file.templated_str\n        return fixed_source_string, changed\n",
+        "R11b", "fix_string",
+    ),
+    Variant(
+        "aliased-templated-file-other-string", LINTED_FILE,
+        "        original_source = self.templated_file.source_str\n",
+        "        templated_file = self.templated_file\n        original_source = templated_file.templated_str\n",
+        "R11b", "fix_string",
+    ),
+    Variant(
+        "normaliser-local-pattern-misses-lone-cr", LINTER,
+        "        return regex.sub(r\"\\r\\n|\\r\", \"\\n\", string)\n",
+        "        pattern = r\"\\r\\n\"\n        normalised = regex.sub(pattern, \"\\n\", string)\n        return normalised\n",
+        "R11c", "_normalise_newlines",
+    ),
+    Variant(
+        "indexed-loader-result-wrong-component", LINTER,
+        "        raw_file, config, encoding = self.load_raw_file_and_config(fname, root_config)\n"
+        "        # Render the file\n"
+        "        return self.render_string(raw_file, fname, config, encoding)\n",
+        "        loaded = self.load_raw_file_and_config(fname, root_config)\n"
+        "        # Render the file\n"
+        "        return self.render_string(loaded[0], fname, loaded[1], encoding=loaded[0])\n",
+        "R11d", "render_file",
+    ),
+    Variant(
+        "lint-rendered-local-encoding-constant", LINTER,
+        "        parsed = cls.parse_rendered(rendered)\n"
+        "        return cls.lint_parsed(\n"
+        "            parsed,\n"
+        "            rule_pack=rule_pack,\n"
+        "            fix=fix,\n"
+        "            formatter=formatter,\n"
+        "            encoding=rendered.encoding,\n",
+        "        parsed = cls.parse_rendered(rendered)\n"
+        "        file_encoding = \"utf-8\"\n"
+        "        return cls.lint_parsed(\n"
+        "            parsed,\n"
+        "            rule_pack=rule_pack,\n"
+        "            fix=fix,\n"
+        "            formatter=formatter,\n"
+        "            encoding=file_encoding,\n",
+        "R11d", "lint_rendered",
+    ),
+    Variant(
+        "runner-yields-other-render-through-local", RUNNER,
+        "                yield fname, self.linter.render_file(fname, self.config)\n",
+        "                rendered_file = self.linter.render_string(\"\", fname, self.config, \"utf-8\")\n                yield fname, rendered_file\n",
+        "R11d", "iter_partials",
+    ),
 ]
